@@ -121,6 +121,91 @@ def atomic_op(t):
     return m if m in ATOMIC_OPS else None
 
 
+def local_sources(fn, start_locals):
+    """Flow-insensitive backward data dependence: every local, constant and callee that can flow into the given locals
+    (through assignments to any part of a local, call results and `&mut` hand-offs).  Returns (locals, consts, callees)."""
+    import json as _json
+
+    def locals_in(obj, acc):
+        if isinstance(obj, dict):
+            if "l" in obj and "p" in obj and isinstance(obj["l"], int):
+                acc.add(obj["l"])
+                for e in obj["p"]:
+                    if isinstance(e, dict) and isinstance(e.get("index"), int):
+                        acc.add(e["index"])
+            for k_, v in obj.items():
+                if k_ != "lhs":
+                    locals_in(v, acc)
+        elif isinstance(obj, list):
+            for v in obj:
+                locals_in(v, acc)
+
+    def consts_in(obj, acc):
+        if isinstance(obj, dict):
+            if "const" in obj and isinstance(obj["const"], dict):
+                acc.add(str(obj["const"].get("def") or obj["const"].get("text")))
+            for v in obj.values():
+                consts_in(v, acc)
+        elif isinstance(obj, list):
+            for v in obj:
+                consts_in(v, acc)
+    deps = {}
+    kons = {}
+    calls = {}
+    for bi in sorted(fn.live):
+        blk = fn.blocks[bi]
+        for s_ in blk["stmts"]:
+            if s_.get("k") != "assign":
+                continue
+            l = s_["lhs"]["l"]
+            acc = set()
+            locals_in(s_["rv"], acc)
+            for e in s_["lhs"]["p"]:
+                if isinstance(e, dict) and isinstance(e.get("index"), int):
+                    acc.add(e["index"])
+            deps.setdefault(l, set()).update(acc)
+            ck = set()
+            consts_in(s_["rv"], ck)
+            kons.setdefault(l, set()).update(ck)
+            # a store through a reference also reaches what the reference points to
+            if s_["lhs"]["p"] and s_["lhs"]["p"][0] == "deref":
+                for l2, d2 in list(deps.items()):
+                    pass
+        t = blk["term"]
+        if t["k"] == "call":
+            l = t["dest"]["l"]
+            acc = set()
+            locals_in(t["args"], acc)
+            deps.setdefault(l, set()).update(acc)
+            ck = set()
+            consts_in(t["args"], ck)
+            kons.setdefault(l, set()).update(ck)
+            calls.setdefault(l, set()).add(callee(t))
+    # `r = &mut x; *r = v` : x depends on v
+    ref_of = {}
+    for bi in sorted(fn.live):
+        for s_ in fn.blocks[bi]["stmts"]:
+            if s_.get("k") == "assign" and "ref" in s_["rv"] and not s_["lhs"]["p"]:
+                ref_of.setdefault(s_["lhs"]["l"], set()).add(s_["rv"]["ref"]["l"])
+    for r_, tg in ref_of.items():
+        for x in tg:
+            deps.setdefault(x, set()).update(deps.get(r_, set()) - {x})
+            kons.setdefault(x, set()).update(kons.get(r_, set()))
+            calls.setdefault(x, set()).update(calls.get(r_, set()))
+    seen = set()
+    work = list(start_locals)
+    K, C = set(), set()
+    while work:
+        l = work.pop()
+        if l in seen:
+            continue
+        seen.add(l)
+        K |= kons.get(l, set())
+        C |= calls.get(l, set())
+        work += list(deps.get(l, ()))
+    return seen, K, C
+
+
 def uses_of_local(fn, l):
     """All reads of local `l`: ('stmt', bb, si, stmt) / ('term', bb, term, role)."""
     out = []
